@@ -192,6 +192,35 @@ def doMerge (fs : List String) : String :=
     | _, _ => "bad-op"
   | _ => "bad-op"
 
+def parseRefs (s : String) : List Ref :=
+  (items " " s).filterMap fun t => match t.splitOn ":" with
+    | ["n", x] => some { isNode := true, name := x }
+    | ["l", x] => some { isNode := false, name := x }
+    | _ => none
+
+def parseCtl (s : String) : Option Ctl :=
+  match s.splitOn "," with
+  | [c, t, e] => some { cond := parseRefs c, thenA := parseRefs t, elseA := parseRefs e }
+  | _ => none
+
+/-- ctlrefs | <snodes> | <slinks> | <ctl;ctl…> (ctl = cond refs,then refs,else refs; ref = n:name | l:name) | <edits> (c|t|e,i,refs ; p,i)
+    -> `ok J=<junction names> P=<pipe names>`: the exclusion lists `_Skeletonize.__init__` derives from the edited controls -/
+def doCtlRefs (fs : List String) : String :=
+  match fs with
+  | [nodes, links, ctls, edits] =>
+    match (items ";" nodes).mapM parseSNode, (items ";" links).mapM parseSLink, (items ";" ctls).mapM parseCtl with
+    | some ns, some ls, some cs =>
+      let es : List CtlEdit := (items ";" edits).filterMap fun t => match (t.splitOn ",").map trim with
+        | ["c", i, r] => i.toNat?.map fun i => CtlEdit.cond i (parseRefs r)
+        | ["t", i, r] => i.toNat?.map fun i => CtlEdit.thenA i (parseRefs r)
+        | ["e", i, r] => i.toNat?.map fun i => CtlEdit.elseA i (parseRefs r)
+        | ["p", i] => i.toNat?.map CtlEdit.priority
+        | _ => none
+      let cs := es.foldl applyEdit cs
+      s!"ok J={" ".intercalate (ctlJunctions ns cs)} P={" ".intercalate (ctlPipes ls cs)}"
+    | _, _, _ => "bad-op"
+  | _ => "bad-op"
+
 def handle (line : String) : String :=
   match (line.splitOn "|").map trim with
   | "split" :: fs => doSplit false fs
@@ -199,6 +228,7 @@ def handle (line : String) : String :=
   | "skelrun" :: fs => doSkelRun fs
   | "skelora" :: fs => doSkelOracle fs
   | "merge" :: fs => doMerge fs
+  | "ctlrefs" :: fs => doCtlRefs fs
   | _ => "bad-op"
 
 partial def loop (h : IO.FS.Stream) : IO Unit := do
